@@ -56,38 +56,32 @@ fn vtx_of(frames: usize, data: &[u8; 28], player_frequency: u8) -> Vtx {
     }
 }
 
-fn scenario(stereo: bool, frames: usize) {
-    let data: [u8; 28] = kani::any();
-    let spf: usize = kani::any();
-    kani::assume(spf >= 1 && spf <= 2);
-    // sample_rate / player_frequency == spf
-    let mut p = Player::<Rec>::new(vtx_of(frames, &data, 1), spf, stereo);
+/// one play-out of a 2-frame log with the first play() call of `l1` samples and the rest in a
+/// second call; register bytes symbolic, split and samples_per_frame concrete (enumerated by the
+/// harnesses: symbolic buffer lengths made the run infeasible, > 12 GB)
+fn scenario(stereo: bool, frames: usize, spf: usize, l1: usize, data: &[u8; 28]) {
+    let mut p = Player::<Rec>::new(vtx_of(frames, data, 1), spf, stereo);
     let ch = if stereo { 2 } else { 1 };
-    // a first call with a symbolic buffer length (0, 1, odd in stereo, a whole frame, ...), then the rest
-    let mut out = [0f64; 10];
-    let l1: usize = kani::any();
-    kani::assume(l1 <= 4);
-    let n1 = p.play(&mut out[0..l1]);
+    let mut a = [0f64; 4];
+    let mut b = [0f64; 10];
+    let n1 = p.play(&mut a[..l1]);
     kani::assert(n1 <= l1 && n1 % ch == 0, "C20: play fills whole sample frames within the buffer");
-    let n2 = p.play(&mut out[n1..10]);
-    let filled = n1 + n2;
+    let n2 = p.play(&mut b);
     let total = frames * spf;
-    kani::assert(filled == total * ch, "C20: frames*floor(rate/freq) samples per channel in total");
-    kani::assert(p.play(&mut out[8..10]) == 0, "C20: nothing after the end");
+    kani::assert(n1 + n2 == total * ch, "C20: frames*floor(rate/freq) samples per channel in total");
+    kani::assert(p.play(&mut b[8..10]) == 0, "C20: nothing after the end");
     // the stream does not depend on how it was split: sample k carries value k (left) / -k (right)
     let mut i = 0;
-    while i < 10 {
-        if i < filled {
-            let k = (i / ch) as f64;
-            let exp = if stereo && i % 2 == 1 { -k } else { k };
-            kani::assert(out[i] == exp, "C20: output stream identical for every split of play() calls");
-        }
+    while i < n1 + n2 {
+        let v = if i < n1 { a[i] } else { b[i - n1] };
+        let k = (i / ch) as f64;
+        let exp = if stereo && i % 2 == 1 { -k } else { k };
+        kani::assert(v == exp, "C20: output stream identical for every split of play() calls");
         i += 1;
     }
     // register writes of frame j happen exactly before sample j*spf, R13 == 0xFF is skipped
     let ay = p.verif_backend();
-    kani::assert(!ay.overflow, "harness: write log large enough");
-    kani::assert(ay.n_samples == total, "C20: the chip generates exactly the samples delivered");
+    kani::assert(!ay.overflow && ay.n_samples == total, "C20: the chip generates exactly the samples delivered");
     let mut w = 0;
     let mut j = 0;
     while j < frames {
@@ -104,25 +98,33 @@ fn scenario(stereo: bool, frames: usize) {
         j += 1;
     }
     kani::assert(w == ay.n_w, "C20: no other register writes");
-    kani::cover!(filled > 0);
+}
+
+fn all_splits(stereo: bool) {
+    let data: [u8; 28] = kani::any();
+    let mut spf = 1;
+    while spf <= 2 {
+        let mut l1 = 0;
+        while l1 <= 4 {
+            scenario(stereo, 2, spf, l1, &data);
+            l1 += 1;
+        }
+        spf += 1;
+    }
+    scenario(stereo, 0, 1, 2, &data);
+    kani::cover!(true);
 }
 
 #[kani::proof]
-#[kani::unwind(16)]
+#[kani::unwind(30)]
 fn play_mono() {
-    scenario(false, 2);
+    all_splits(false);
 }
 
 #[kani::proof]
-#[kani::unwind(16)]
+#[kani::unwind(30)]
 fn play_stereo() {
-    scenario(true, 2);
-}
-
-#[kani::proof]
-#[kani::unwind(16)]
-fn play_empty() {
-    scenario(kani::any(), 0);
+    all_splits(true);
 }
 
 /// C15, VTX header + strings block: any byte string of <= 48 bytes (truncated headers, missing
